@@ -448,7 +448,18 @@ fn main() {
     let trace = arg(&args, "--trace-file");
     let quiet = std::env::var_os("LOOMC_VERBOSE").is_none();
     if quiet {
-        std::panic::set_hook(Box::new(|_| {}));
+        // silent, but the last panic message is left next to the trace file: if the process
+        // aborts (a panic where unwinding is not possible) the driver can still say why
+        let msg_file = trace.as_ref().map(|t| format!("{t}.msg"));
+        std::panic::set_hook(Box::new(move |info| {
+            if let Some(f) = &msg_file {
+                let m = info.payload().downcast_ref::<String>().cloned().or_else(|| info.payload().downcast_ref::<&str>().map(|s| s.to_string())).unwrap_or_default();
+                use std::io::Write;
+                if let Ok(mut fh) = std::fs::OpenOptions::new().create(true).append(true).open(f) {
+                    let _ = writeln!(fh, "{}", m.replace('\n', " ").chars().take(400).collect::<String>());
+                }
+            }
+        }));
     }
     let t0 = std::time::Instant::now();
     let mut done = 0usize;
